@@ -291,10 +291,10 @@ inductive XY
 deriving Repr, DecidableEq
 
 /-- the `x*y:z*t` parser.  `cap` = number of slots of the malloc'ed `loops` array, `m` = `attr+length - tmp`
-(bytes of the `indexes=` text not yet consumed) -/
-def xyLoop (cap : Nat) : Nat → Bytes → Nat → List ILoop → XY
-  | 0, _, _, _ => .fail
-  | fuel + 1, s, m, acc =>
+(bytes of the `indexes=` text not yet consumed), `nbs` = the running product of the counts -/
+def xyLoop (cap total : Nat) : Nat → Bytes → Nat → Nat → List ILoop → XY
+  | 0, _, _, _, _ => .fail
+  | fuel + 1, s, m, nbs, acc =>
     let (step, t2) := strtolU32 0 s
     if t2 = s then .fail else
     match t2 with
@@ -305,6 +305,7 @@ def xyLoop (cap : Nat) : Nat → Bytes → Nat → List ILoop → XY
       let c3 := t3.head?
       if c3.isSome && c3 != some 58 && c3 != some 41 && c3 != some 32 then .fail
       else if nb = 0 then .fail
+      else if nb > total / nbs then .fail                      -- more iterations than objects (nbs *= nb must not wrap)
       else if acc.length ≥ cap then .err .loopsOverflow        -- loops[cur_loop].step = ...
       else
         let acc := acc ++ [⟨step, nb⟩]
@@ -313,7 +314,7 @@ def xyLoop (cap : Nat) : Nat → Bytes → Nat → List ILoop → XY
           -- tmp = tmp3+1;  if (tmp >= attr+length) fail   (trailing ':')
           let consumed := s.length - t3.length + 1
           if consumed ≥ m then .fail
-          else xyLoop cap fuel (t3.drop 1) (m - consumed) acc
+          else xyLoop cap total fuel (t3.drop 1) (m - consumed) ((nbs * nb) % u64) acc
     | _ => .fail
 
 def lvAt (L : List Level) (i : Nat) : Level := L[i]?.getD {}
@@ -415,7 +416,8 @@ def processIndexes (levels : List Level) (ix : Idx) (total : Nat) : PI × Log :=
   match ix.str with
   | none => (.arr ix.arr, [])
   | some (s, len) =>
-    if total * 4 > allocLimit then (.arr none, [])       -- calloc fails
+    -- total > UINT_MAX: indexes ignored;  or calloc fails
+    if total > u32 - 1 ∨ total * 4 > allocLimit then (.arr none, [])
     else if spnDigComma s = len then
       match explicitLoop total total s [] with
       | some a => (.arr (if haveDuplicates a then none else some a), [])
@@ -423,7 +425,7 @@ def processIndexes (levels : List Level) (ix : Idx) (total : Nat) : PI × Log :=
     else
       let nr := 1 + countColons s len
       if isDig (s.head?.getD 0) then
-        match xyLoop (nr + 1) (s.length + 1) s len [] with
+        match xyLoop (nr + 1) total (s.length + 1) s len 1 [] with
         | .fail => (.arr none, [])
         | .err e => (.err e, [])
         | .ok loops =>
